@@ -19,6 +19,7 @@ open SplinkVerif SplinkVerif.Score
 noncomputable instance instNumReal : Num ℝ where
   zero := 0
   one := 1
+  ofNat := fun n => (n : ℝ)
   add := (· + ·)
   sub := (· - ·)
   mul := (· * ·)
@@ -31,6 +32,7 @@ noncomputable instance instNumReal : Num ℝ where
 
 @[simp] theorem num_zero : (Num.zero : ℝ) = 0 := rfl
 @[simp] theorem num_one : (Num.one : ℝ) = 1 := rfl
+@[simp] theorem num_ofNat (n : ℕ) : (Num.ofNat n : ℝ) = (n : ℝ) := rfl
 @[simp] theorem num_add (a b : ℝ) : Num.add a b = a + b := rfl
 @[simp] theorem num_sub (a b : ℝ) : Num.sub a b = a - b := rfl
 @[simp] theorem num_mul (a b : ℝ) : Num.mul a b = a * b := rfl
